@@ -119,10 +119,10 @@ def flushFrom {V : Type} (cmn : Bool → V → V → V) (bit : Nat → Bool) : N
     else flushFrom cmn bit fuel next (i + 1)
 
 /-- `GLWEBlindRetriever::alloc(size)` + `retrieve(res, data, selector, offset)`:
-`bit_size = 32 - (size - 1).leading_zeros()` accumulators (initial contents `init`), one `add` per element
+`bit_size = (32 - (size - 1).leading_zeros()).max(1)` accumulators (initial contents `init`), one `add` per element
 (`assert!(counter < 1 << bit_size)`), then `flush` (zero result when nothing was added). -/
 def retrieve {V : Type} (cmn : Bool → V → V → V) (zero init : V) (size : Nat) (idx offset : Nat) (data : List V) : Outcome V :=
-  let bitSize := if size ≤ 1 then 0 else Nat.log2 (size - 1) + 1
+  let bitSize := max (if size ≤ 1 then 0 else Nat.log2 (size - 1) + 1) 1      -- `.max(1)`: one accumulator even for one element
   let bit := fun k => idx.testBit (k + offset)
   let accs0 : List (Acc V) := List.replicate bitSize { data := init, num := 0 }
   let step : Outcome (List (Acc V) × Nat) → V → Outcome (List (Acc V) × Nat) := fun st a =>
